@@ -409,6 +409,7 @@ class Ctx:
             goal = z3.BoolVal(goal)
         m = dict(meta or {})
         m["path"] = ",".join(self.path_tags[-12:])
+        m["_witness"] = self.witness  # the witness spec in force where the obligation arises
         self.obligations[key] = Obligation(name, self.pc, goal, m)
 
     def cover(self, name, term=None):
@@ -436,7 +437,10 @@ def _eval_witness(m, terms):
             return z3.is_true(v)
         return str(v)
 
-    return {k: ([ev(x) for x in t] if isinstance(t, (list, tuple)) else ev(t)) for k, t in terms.items()}
+    def walk(t):
+        return [walk(x) for x in t] if isinstance(t, (list, tuple)) else ev(t)
+
+    return {k: walk(t) for k, t in terms.items()}
 
 
 def discharge(ob, axioms, timeout_ms=20000, witness=None):
